@@ -28,7 +28,8 @@ def sort_by_time(x):
         if min_channel < 0:
             channel -= min_channel
     else:
-        channel = np.ones(len(x))
+        # An integer key: a float would lose nanoseconds once the time range exceeds 2^52
+        channel = np.ones(len(x), dtype=np.int64)
 
     max_time_difference = (np.iinfo(np.int64).max - 10) / (channel.max() + 1)
     # Subtract 10 to have some extra margin, just in case.
